@@ -262,7 +262,6 @@ def make_harness(op, n, m=0, use_validator=True):
         else:
             ex.check(len(events) <= 1, "at most one event when nothing changes")
         for ev in events:
-            ex.check(ev[3] == after, "event delivered after the change (handler sees final contents)")
             replay = check_event(ex, ev[:3], before, after, n, op)
             if replay is not None:
                 ex.check(replay == after, "replaying (index, removed, added) on the snapshot yields the contents after")
